@@ -178,7 +178,7 @@ func consumerSender(ctx context.Context, wg *sync.WaitGroup, urlBuffer <-chan *g
 			}
 
 			logger.Debug("sending new item to reactor", "item", newItem.GetShortID())
-			verifhook.AtKV("hq.before_insert", newItem.GetID(), URL.Value, newItem.GetURL().GetHops())
+			verifhook.AtKV("hq.before_insert", newItem.GetID(), URL.Value+"\tvia="+URL.Via+"\tpath="+URL.Path, newItem.GetURL().GetHops())
 
 			// Send the new Item to the reactor
 			err = reactor.ReceiveInsert(newItem)
